@@ -8,7 +8,7 @@ import time
 from bvm import harness, refcodec as R, node as N, vsched
 
 PROP = "C04"
-RULE = ("message sequences (1..40 application requests/answers of 20 B..70 KB with unique markers, interleaved with DWRs) x "
+RULE = ("message sequences (1..40 application requests/answers from the bare 20-byte header to 70 KB, uniquely marked, interleaved with DWRs) x "
         "segmentations of their concatenated encoding (whole, every single split position of short streams, one byte at a "
         "time, header-internal splits, random splits, coalescing) x recv-size scripts x schedules (round robin; random "
         "walk with line-level preemption in transport/setup/statemachine, p in {0.02,0.1,0.3}); oracle: exactly-once, "
@@ -28,7 +28,10 @@ def build_sequence(rng, n, big=False):
             kinds.append(("DWR", 1000 + seq))
         else:
             size = rng.choice([0, 0, 1, 2, 3, 17, 100, 1000]) if not big else rng.choice([0, 5000, 70000, 30000])
-            if c < 0.7:
+            if c < 0.28 and not big:
+                # the smallest well-formed message: the 20-byte header alone (identified by its Hop-by-Hop)
+                m = R.LMsg(1, rng.choice([0xc0, 0x40, 0x80, 0x00]), rng.choice([316, 272, 8388620]), rng.choice([16777251, 4]), seq, 0x30000000 + seq, [])
+            elif c < 0.7:
                 m = N.app_request(seq, size=size, dest_host=rng.choice([N.LOCAL[0], None]), dest_realm=rng.choice([N.LOCAL[1], None]))
             else:
                 m = N.app_answer(seq, size=size)
@@ -119,7 +122,8 @@ def execute(acc, case):
             for m in delivered:
                 try:
                     lm = R.decode(m.dump())[0]
-                    got.append((N.marker_of(lm), m.dump()))
+                    mk = N.marker_of(lm)
+                    got.append((mk if mk is not None else lm.hbh, m.dump()))
                 except BaseException as ex:
                     got.append((None, b""))
             want = [(k[1], encs[i]) for i, k in enumerate(kinds) if k[0] == "APP"]
